@@ -187,3 +187,58 @@ c.ensures('credentials-only-when-enabled',
 c.ensures('credentials-header-only-true',
           "forall(lambda k: implies(result[k][0] == 'Access-Control-Allow-Credentials', "
           "self.cors_credentials and result[k][1] == 'true'), 0, len(result))")
+
+# ------------------------------------------------------------------- response constructors
+PKTS = List(Ref('Packet'))
+CT_PLAIN = "result['headers'] == [('Content-Type', 'text/plain')]"
+
+c = REG.contract('base_server.BaseServer._log_error_once')
+c.trusted = True
+c.trusted_reason = 'logging only (touches log_message_keys, which no property observes)'
+c.param('self', Ref('BaseServer')).param('message', STR).param('message_key', STR)
+
+for nm in ('_gzip', '_deflate'):
+    c = REG.contract('base_server.BaseServer.' + nm, props=['C19'])
+    c.trusted = True
+    c.trusted_reason = 'gzip/zlib (C code): decompress(compress(x)) == x assumed'
+    c.param('self', Ref('BaseServer')).param('response', BYTES)
+    c.returns(BYTES)
+    c.ensures('lossless', "result == compressed('%s', response)" % nm[1:])
+
+c = REG.contract('base_server.BaseServer._bad_request', props=['C12', 'C15'])
+c.param('self', Ref('BaseServer')).param('message', [NONE, STR])
+c.returns(RESP)
+c.ensures('status-400', "result['status'] == '400 BAD REQUEST'")
+c.ensures('headers', CT_PLAIN)
+c.ensures('body', "result['response'] == json_text(message or 'Bad Request').encode('utf-8')")
+
+c = REG.contract('base_server.BaseServer._method_not_found', props=['C12', 'C15'])
+c.param('self', Ref('BaseServer'))
+c.returns(RESP)
+c.ensures('status-405', "result['status'] == '405 METHOD NOT FOUND'")
+c.ensures('headers', CT_PLAIN)
+c.ensures('body', "result['response'] == b'Method Not Found'")
+
+c = REG.contract('base_server.BaseServer._unauthorized', props=['C11', 'C15'])
+c.param('self', Ref('BaseServer')).param('message', ANY)
+c.returns(RESP)
+c.ensures('status-401', "result['status'] == '401 UNAUTHORIZED'")
+c.ensures('headers', "result['headers'] == [('Content-Type', 'application/json')]")
+c.ensures('body-carries-value', "result['response'] == "
+          "json_text('Unauthorized' if message is None else message).encode('utf-8')")
+
+c = REG.contract('base_server.BaseServer._ok', props=['C03', 'C11', 'C15', 'C19'])
+c.param('self', Ref('BaseServer')).param('packets', [NONE, List(Ref('Packet', True))])
+c.param('headers', [NONE, HEADERS]).param('jsonp_index', [NONE, INT])
+c.returns(RESP)
+c.requires('implies(packets is not None, forall(lambda k: packets[k] is not None and '
+           'packet_ok(packets[k]), 0, len(packets)))', 'packets-encodable')
+c.ensures('status-200', "result['status'] == '200 OK'")
+c.ensures('no-packets-plain-ok', "implies(packets is None, result['response'] == b'OK' and " +
+          CT_PLAIN + ")")
+c.ensures('headers-kept-and-typed', "implies(packets is not None, result['headers'] == "
+          "(headers or []) + [('Content-Type', 'text/plain; charset=UTF-8')])")
+c.ensures('body-is-the-payload', "implies(packets is not None and jsonp_index is None, "
+          "result['response'] == payload_text(packets, len(packets)).encode('utf-8'))",
+          props=['C03', 'C02'])
+c.modifies('Packet.encode_cache', 'Payload.packets')
